@@ -151,6 +151,32 @@ def run(case):
                     bad(f"{slab}/isotropy/{qlab}/F={labels[j]}", "P(F Q^T) != P(F) Q^T for an isotropic model", float(eP), 0, tol_iso)
                 if not eA <= tol_iso * 10:
                     bad(f"{slab}/isotropy-tangent/{qlab}", "A(F Q^T) != A(F) rotated", float(eA), 0, tol_iso * 10)
+    # models written in principal stretches are driven on states with distinct stretches above (their AD eigenvalue routines
+    # are regularised at repeated ones); states with two or three EQUAL stretches whose principal axes are inclined to the
+    # coordinate axes are judged here at the accuracy the regularisation allows (measured <= 7e-9, threshold 1e-6)
+    if e["eigen"] and e["hyper"] and e["nstate"] == 0:
+        Ds = [np.diag(v) for v in ((0.8, 0.8, 1.3), (1.3, 0.8, 0.8), (1.3, 1.0, 1.3), (1.2, 1.2, 1.2))]
+        Fr = []
+        for Qg in zoo.generic_rotations(case["seed"] + 11, 2):
+            for D in Ds:
+                Fr.append(Qg @ D @ Qg.T)
+                Fr.append(zoo.generic_rotations(case["seed"] + 12, 1)[0] @ D @ Qg.T)
+        Fr = np.ascontiguousarray(np.stack(Fr, axis=-1)[..., None])
+        Pr = np.asarray(um.gradient([Fr, None])[0], float)
+        Ar = np.broadcast_to(np.asarray(um.hessian([Fr, None])[0], float), (3, 3, 3, 3, Fr.shape[2], 1))
+        st["trans"] += 2
+        st["traces"] += 2
+        if np.isfinite(Ar).all() and np.isfinite(Pr).all():
+            em = np.abs(Ar - Ar.transpose(2, 3, 0, 1, 4, 5)).max() / max(np.abs(Ar).max(), 1e-6)
+            if em > 1e-6:
+                bad("repeated-stretches/major-symmetry", "A_ijkl != A_klij at states with equal principal stretches and inclined principal axes", float(em), 0, 1e-6)
+            taur = np.einsum("ijnq,kjnq->iknq", Pr, Fr)
+            es = np.abs(taur - taur.transpose(1, 0, 2, 3)).max() / max(np.abs(Pr).max(), 1e-6)
+            if es > 1e-6:
+                bad("repeated-stretches/kirchhoff-sym", "Kirchhoff stress not symmetric at states with equal principal stretches", float(es), 0, 1e-6)
+            nontrivial.append("repeated-stretches")
+        else:
+            bad("repeated-stretches/finite", "non-finite stress / tangent at states with equal principal stretches", "nan", "finite")
     sample = dict(case=key, lattice_points=n, rotations=len(rots), states=[s for s, _ in e["states"]], isotropy_clause=bool(e["iso"] and not e["micro"]))
     return dict(viol=viol, states=st["states"], transitions=st["trans"], traces=st["traces"], nontrivial=nontrivial, outcomes=sorted(outcomes), sample=sample, notes=notes,
                 digest=f"{st['states']}/{st['traces']}/{len(viol)}")
